@@ -33,6 +33,9 @@ def run(ctx, report):
     report.section("purity", purity, ctx, report)
     from . import markup_writer_fold
     report.section("written documents", markup_writer_fold.run, ctx, report, {"italics": ("R-DOC-STYLE", "1")})
+    from . import dfxp_reader_fold
+    report.section("generated DFXP documents", dfxp_reader_fold.run, ctx, report, {
+        "italics": ("R-DOC-STYLE", "1"), "roundtrip": ("R-ROUNDTRIP", "1")})
     report.not_decided += ["that the same characters are italic / bold / underlined after a round trip",
                            "spans across breaks and layout groups"]
 
